@@ -42,7 +42,14 @@ func resolve(s *schema.Schema, tm *schema.TypeMap, ms []*schema.Member, dropFram
 			if f == nil {
 				return nil, fmt.Errorf("group count field %s undefined", m.Name)
 			}
-			items, err := resolve(s, tm, m.Members, false)
+			// The generator emits one Go type per group *name* (the last
+			// definition it meets wins), so a message's group has the
+			// members of that definition.
+			def := m
+			if g, ok := groupDefs(s)[m.Name]; ok {
+				def = g
+			}
+			items, err := resolve(s, tm, def.Members, false)
 			if err != nil {
 				return nil, err
 			}
@@ -107,4 +114,43 @@ func Fix44() ([]Template, error) {
 		fix44Tpls, fix44Err = TemplatesOf(s, tm)
 	})
 	return fix44Tpls, fix44Err
+}
+
+var groupDefCache = map[*schema.Schema]map[string]*schema.Member{}
+
+// groupDefs maps a group name to the definition the generator ends up using:
+// it walks messages, components, header, trailer in that order and keeps the
+// last group seen under each name.
+func groupDefs(s *schema.Schema) map[string]*schema.Member {
+	if m, ok := groupDefCache[s]; ok {
+		return m
+	}
+	defs := map[string]*schema.Member{}
+	var grab func(m *schema.Member)
+	grab = func(m *schema.Member) {
+		if m.Kind == "group" {
+			defs[m.Name] = m
+		}
+		for _, c := range m.Members {
+			grab(c)
+		}
+	}
+	for _, msg := range s.Messages {
+		for _, m := range msg.Members {
+			grab(m)
+		}
+	}
+	for _, c := range s.Components {
+		for _, m := range c.Members {
+			grab(m)
+		}
+	}
+	for _, m := range s.Header.Members {
+		grab(m)
+	}
+	for _, m := range s.Trailer.Members {
+		grab(m)
+	}
+	groupDefCache[s] = defs
+	return defs
 }
